@@ -120,4 +120,24 @@ NumToStr(a) ==
                 ELSE (IF a.s = -1 THEN <<"-">> ELSE <<>>) \o NatChars(a.n \div a.d)
                      \o (IF a.d = 1 THEN <<>> ELSE <<".">> \o FracChars(a.n % a.d, a.d))
 IsUnkStr(s) == \E i \in 1..Len(s) : s[i] = "?unk"
+
+\* the shortest numeral that reads back to the same double, as ReadJson writes a JSON number: plain decimal
+\* notation unless the exponent form (d.ddde+XX, used only for decimal exponents below -4 or from 6 on) is shorter
+RECURSIVE StripLeadZ(_)
+StripLeadZ(s) == IF s # <<>> /\ s[1] = "0" THEN StripLeadZ(Tail(s)) ELSE s
+RECURSIVE StripTrailZ(_)
+StripTrailZ(s) == IF s # <<>> /\ s[Len(s)] = "0" THEN StripTrailZ(SubSeq(s, 1, Len(s) - 1)) ELSE s
+ShortestNumeral(a) ==
+  IF a.c # "fin" \/ ~IsPow2(a.d) THEN NumToStr(a)
+  ELSE LET ip == NatChars(a.n \div a.d)
+           fp == FracChars(a.n % a.d, a.d)
+           intZero == (a.n \div a.d) = 0
+           sig == StripTrailZ(IF intZero THEN StripLeadZ(fp) ELSE ip \o fp)
+           m == Len(sig)
+           exp == IF intZero THEN -(Len(fp) - Len(StripLeadZ(fp)) + 1) ELSE Len(ip) - 1
+           ae == IF exp < 0 THEN -exp ELSE exp
+           plain == NumToStr(a)
+           sci == (IF a.s = -1 THEN <<"-">> ELSE <<>>) \o <<sig[1]>> \o (IF m > 1 THEN <<".">> \o Tail(sig) ELSE <<>>)
+                  \o <<"e", IF exp < 0 THEN "-" ELSE "+">> \o (IF ae < 10 THEN <<"0">> ELSE <<>>) \o NatChars(ae)
+       IN IF (exp < -4 \/ exp >= 6) /\ Len(sci) < Len(plain) THEN sci ELSE plain
 =============================================================================
